@@ -27,6 +27,46 @@ pub struct Report {
     pub notes: Vec<String>,
     pub correspondence: String,
     start: std::time::Instant,
+    /// (time of the last registered case, its key, cases so far): read by the hang watchdog
+    heartbeat: std::sync::Arc<std::sync::Mutex<(std::time::Instant, String, usize)>>,
+}
+
+/// where the harness report goes (set by main before the run; the hang watchdog writes a minimal report there)
+pub static OUT_PATH: std::sync::OnceLock<String> = std::sync::OnceLock::new();
+
+/// no case may take longer than this (seconds): an in-process hang of the implementation would otherwise stall the check
+pub const HANG_LIMIT_S: u64 = 300;
+
+fn spawn_watchdog(prop: String, tier: String, seed: u64, hb: std::sync::Arc<std::sync::Mutex<(std::time::Instant, String, usize)>>) {
+    std::thread::spawn(move || loop {
+        std::thread::sleep(std::time::Duration::from_secs(2));
+        let (t, key, n) = { let g = hb.lock().unwrap(); (g.0, g.1.clone(), g.2) };
+        if t.elapsed().as_secs() > HANG_LIMIT_S {
+            std::fs::create_dir_all("/verif/replays").ok();
+            let path = format!("/verif/replays/{}-{}-hang.json", prop, seed);
+            let signature = format!("no case finished within {} s: the implementation does not terminate (or takes unboundedly long) on an input of this run", HANG_LIMIT_S);
+            let mut parts = key.splitn(2, '\u{0}');
+            let first = parts.next().unwrap_or("").to_string();
+            let second = parts.next().unwrap_or("").to_string();
+            let body = json!({
+                "property": prop, "seed": seed, "tier": tier, "kind": "hang", "signature": signature, "failing_input": true,
+                "case": {"last_registered_case": {"tsg_or_key": first, "source": second}, "cases_before": n,
+                         "note": "the input that does not terminate is this case or the one generated right after it; the run is deterministic: re-run the same check with the same seed to reproduce"},
+            });
+            std::fs::write(&path, serde_json::to_string_pretty(&body).unwrap()).ok();
+            println!("FAIL property={} kind=hang failing_input=true replay={} signature={}", prop, path, signature);
+            if let Some(out) = OUT_PATH.get() {
+                let rep = json!({
+                    "property_id": prop, "tier": tier, "seed": seed, "evaluations": n, "distinct_nontrivial": 0,
+                    "rule": "(run aborted by the hang watchdog)", "samples": [], "distribution": {"aborted:hang": 1},
+                    "failures": [{"kind": "hang", "signature": signature, "failing_input": true, "replay": path}],
+                    "notes": ["aborted by the hang watchdog"], "correspondence": "", "harness_wall_s": 0.0,
+                });
+                std::fs::write(out, serde_json::to_string_pretty(&rep).unwrap()).ok();
+            }
+            std::process::exit(1);
+        }
+    });
 }
 
 pub fn hash_of<T: Hash>(t: &T) -> u64 {
@@ -37,6 +77,8 @@ pub fn hash_of<T: Hash>(t: &T) -> u64 {
 
 impl Report {
     pub fn new(prop: &str, tier: &str, seed: u64) -> Report {
+        let heartbeat = std::sync::Arc::new(std::sync::Mutex::new((std::time::Instant::now(), String::new(), 0usize)));
+        spawn_watchdog(prop.to_string(), tier.to_string(), seed, heartbeat.clone());
         Report {
             prop: prop.to_string(),
             tier: tier.to_string(),
@@ -50,6 +92,13 @@ impl Report {
             notes: Vec::new(),
             correspondence: String::new(),
             start: std::time::Instant::now(),
+            heartbeat,
+        }
+    }
+    /// tell the hang watchdog that the run is alive (long phases between two cases)
+    pub fn alive(&self) {
+        if let Ok(mut g) = self.heartbeat.lock() {
+            g.0 = std::time::Instant::now();
         }
     }
     pub fn count(&mut self, key: &str) {
@@ -61,6 +110,9 @@ impl Report {
     /// record one evaluated case; `key` identifies it for distinctness; `nontrivial` per the rule
     pub fn case(&mut self, key: &str, nontrivial: bool) {
         self.evaluations += 1;
+        if let Ok(mut g) = self.heartbeat.lock() {
+            *g = (std::time::Instant::now(), key.chars().take(20000).collect(), self.evaluations);
+        }
         if nontrivial {
             self.nontrivial.insert(hash_of(&key));
         }
@@ -86,6 +138,10 @@ impl Report {
     }
     /// write the harness part of the evidence and the replay files; returns number of failures
     pub fn finish(&mut self, out: &str) -> usize {
+        // on how many model runs the executable contracts of the panic-freedom theorems held (observation, never an alarm)
+        for (k, n) in crate::execx::take_contract_counts() {
+            self.count_n(&k, n);
+        }
         let mut fails = Vec::new();
         std::fs::create_dir_all("/verif/replays").ok();
         for (i, f) in self.failures.iter().enumerate() {
